@@ -6,6 +6,7 @@ import RjModel.Model.Key
 import RjModel.Model.Launch
 import RjModel.Model.ParseWire
 import RjModel.Model.FileRecv
+import RjModel.Model.Exe
 import RjModel.Model.ParseSettings
 import RjModel.Generated.Defaults
 open Rj
@@ -111,6 +112,21 @@ def handle (line : String) : String :=
         let mt := match f.mt with | .src => "src" | .fresh _ => "fresh" | .old => "old"
         s!"len={f.bytes.length} mt={mt} complete={if f.bytes = fullBytes chunks then 1 else 0}"
     | none => "bad-op"
+  | "exe" :: op :: b :: name :: rest =>
+    match unxBytes b, unx name with
+    | some bytes, some nm =>
+      let nameB := nm.toUTF8.toList
+      let showB : Exe.R Exe.Bytes → String := fun
+        | .ok x => "ok:x" ++ hexOfBytes x | .err => "err" | .panic => "panic"
+      let showO : Exe.R (Option Exe.Bytes) → String := fun
+        | .ok (some x) => "ok:x" ++ hexOfBytes x | .ok none => "ok:none" | .err => "err" | .panic => "panic"
+      match op, rest with
+      | "extelf", [] => showO (Exe.extractElf bytes nameB)
+      | "extpe", [] => showO (Exe.extractPe bytes nameB)
+      | "addelf", [p] => match unxBytes p with | some pl => showB (Exe.addElf bytes nameB pl) | none => "bad-op"
+      | "addpe", [p] => match unxBytes p with | some pl => showB (Exe.addPe bytes nameB pl) | none => "bad-op"
+      | _, _ => "bad-op"
+    | _, _ => "bad-op"
   | ["rpd", s] =>
     match unx s with
     | some str => renderPathDesc (parsePathDesc str)
